@@ -3,7 +3,7 @@ INIT Init
 NEXT NextAny
 CONSTANTS
     Paths <- PathsT
-    Contents = {"c0", "c1", "c2", "big1", "big2"}
+    Contents = {"c0", "c1", "c2", "c3", "big1", "big2"}
     SubDirs <- SubDirsT
     Under <- UnderT
     MaxSteps = 10
